@@ -611,7 +611,7 @@ func cCount(th bool) {
 		p *= len(eWrappers)
 		ne += p
 	}
-	fmt.Printf("D: %d cases; E: %d cases\n", nd, ne)
+	fmt.Printf("D: %d cases; E: %d cases; F: %d cases\n", nd, ne, fCount(th))
 	for _, l := range cLayers(th) {
 		g := newGen(l.al)
 		top := gctx{0, false}
